@@ -152,7 +152,13 @@ func cmdSignalTrace(args []string) error {
 								res = 1
 							}
 						case "errors":
-							res = len(t.Errors())
+							// the list accessor and the cumulative one (Err) report the same errors -- at every moment,
+							// also when Err has been asked before
+							if k%2 == 0 || t.ErrOf == nil {
+								res = len(t.Errors())
+							} else {
+								res = scopex.LeafCount(t.ErrOf())
+							}
 						}
 					}()
 					mu.Lock()
@@ -171,7 +177,13 @@ func cmdSignalTrace(args []string) error {
 			done = true
 		case <-time.After(time.Millisecond):
 		}
-		emit(map[string]interface{}{"ev": "final", "errors": len(t.Errors()), "done": done})
+		nfinal := len(t.Errors())
+		if t.ErrOf != nil {
+			if viaErr := scopex.LeafCount(t.ErrOf()); viaErr != nfinal {
+				nfinal = viaErr // the trace specification will reject the disagreement with the stored count
+			}
+		}
+		emit(map[string]interface{}{"ev": "final", "errors": nfinal, "done": done})
 		if t.Close != nil {
 			t.Close()
 		}
